@@ -16,6 +16,7 @@ import (
 	"fmt"
 	"os"
 	"path/filepath"
+	"sort"
 	"strings"
 	"sync"
 
@@ -142,6 +143,7 @@ func runC17(e *Env) error {
 		}
 	})
 	c17Flags(e, viol, &mu)
+	c17AlterFlags(e, viol, &mu)
 	c17Down(e, pool, viol, &mu)
 	return nil
 }
@@ -502,4 +504,113 @@ func unhexS(h string) []byte {
 		b[i/2] = v
 	}
 	return b
+}
+
+// (B2) the flag of an ALTER TABLE built from several changes: Reversible(plan of cs) must be the
+// conjunction of Reversible(plan of [c]) over c in cs (Lean: Props.C17.alter_flag_compositional),
+// independent of the order of cs (alter_flag_perm). The per-change bit is observed on the real planner.
+func c17AlterFlags(e *Env, viol func(kind, sig, what, chk string, rep any), mu *sync.Mutex) {
+	n := 300
+	if e.Thorough() {
+		n = 5000
+	}
+	for _, d := range []string{"mysql", "postgres"} {
+		pl, _, _ := plannerOf(d)
+		r := hx.NewRand(e.Seed, "c17-alter-"+d)
+		ity := c02Type(d, 0)
+		mkTable := func() (*schema.Table, map[string]schema.Change) {
+			t := schema.NewTable("t").SetSchema(schema.New("public"))
+			id, a, b := schema.NewColumn("id").SetType(ity), schema.NewColumn("a").SetType(ity).SetNull(true), schema.NewColumn("b").SetType(ity).SetNull(true)
+			t.AddColumns(id, a, b).SetPrimaryKey(schema.NewPrimaryKey(id))
+			ix := schema.NewIndex("ix_a").AddColumns(a)
+			t.AddIndexes(ix)
+			ck := schema.NewCheck().SetName("ck_old").SetExpr("(a > 0)")
+			t.AddChecks(ck)
+			fk := schema.NewForeignKey("fk_old").SetTable(t).AddColumns(b).SetRefTable(t).AddRefColumns(id)
+			t.AddForeignKeys(fk)
+			nc := schema.NewColumn("n").SetType(ity).SetNull(true)
+			cs := map[string]schema.Change{
+				"add-column":          &schema.AddColumn{C: nc},
+				"drop-column":         &schema.DropColumn{C: b},
+				"modify-column-null":  &schema.ModifyColumn{From: a, To: schema.NewColumn("a").SetType(ity), Change: schema.ChangeNull},
+				"add-index":           &schema.AddIndex{I: schema.NewIndex("ix_new").SetTable(t).AddColumns(id)},
+				"drop-index":          &schema.DropIndex{I: ix},
+				"add-check-named":     &schema.AddCheck{C: schema.NewCheck().SetName("ck_new").SetExpr("(id > 0)")},
+				"add-check-named-2":   &schema.AddCheck{C: schema.NewCheck().SetName("ck_new2").SetExpr("(id > 1)")},
+				"add-check-unnamed":   &schema.AddCheck{C: schema.NewCheck().SetExpr("(id > 2)")},
+				"add-check-unnamed-2": &schema.AddCheck{C: schema.NewCheck().SetExpr("(id > 3)")},
+				"drop-check":          &schema.DropCheck{C: ck},
+				"add-fk":              &schema.AddForeignKey{F: schema.NewForeignKey("fk_new").SetTable(t).AddColumns(a).SetRefTable(t).AddRefColumns(id)},
+				"drop-fk":             &schema.DropForeignKey{F: fk},
+				"comment":             &schema.ModifyAttr{From: &schema.Comment{Text: "x"}, To: &schema.Comment{Text: "y"}},
+			}
+			return t, cs
+		}
+		flag := func(names []string) (bool, string, error) {
+			t, all := mkTable()
+			var cs []schema.Change
+			for _, n := range names {
+				cs = append(cs, all[n])
+			}
+			var plan *migrate.Plan
+			err := func() (err error) {
+				defer func() {
+					if p := recover(); p != nil {
+						err = fmt.Errorf("panic: %v", p)
+					}
+				}()
+				plan, err = pl.PlanChanges(context.Background(), "p", []schema.Change{&schema.ModifyTable{T: t, Changes: cs}})
+				return err
+			}()
+			if err != nil || plan == nil {
+				return false, "", fmt.Errorf("plan: %v", err)
+			}
+			return plan.Reversible, planTextRev(plan), nil
+		}
+		_, all := mkTable()
+		var names []string
+		for k := range all {
+			names = append(names, k)
+		}
+		sort.Strings(names)
+		single := map[string]bool{}
+		for _, k := range names {
+			f, _, err := flag([]string{k})
+			if err != nil {
+				single[k] = false
+				delete(all, k)
+				continue
+			}
+			single[k] = f
+		}
+		names = names[:0]
+		for k := range all {
+			names = append(names, k)
+		}
+		sort.Strings(names)
+		for i := 0; i < n; i++ {
+			pick := append([]string{}, names...)
+			hx.Shuffle(r, pick)
+			pick = pick[:2+r.Intn(3)]
+			want := true
+			for _, k := range pick {
+				want = want && single[k]
+			}
+			got, text, err := flag(pick)
+			if err != nil {
+				continue
+			}
+			mu.Lock()
+			e.Res.Count("alter-flag/"+d+"/"+strings.Join(pick, ","), !want, "alter-flags:"+d, fmt.Sprintf("alter-reversible:%v", want))
+			mu.Unlock()
+			if got != want {
+				viol("failing-input", "alter-flag-not-conjunction", fmt.Sprintf("%s: ModifyTable with changes %v is planned with Reversible=%v, but planned one by one the changes are reversible=%v\n%s", d, pick, got, func() (o []string) {
+					for _, k := range pick {
+						o = append(o, fmt.Sprintf("%s:%v", k, single[k]))
+					}
+					return
+				}(), text), "Props.C17.alter_flag_iff / alter_flag_compositional", map[string]any{"dialect": d, "changes": pick})
+			}
+		}
+	}
 }
